@@ -12,7 +12,9 @@ import (
 )
 
 const c17Rule = "rapid-generated gateway histories: a configuration (deny-pattern list of 1-3 literal/regex patterns; 0-4 forbidden prompt vectors in a cosine or euclidean firewall index; " +
-	"firewall threshold from {0.05..0.9} incl. the default 0.25; cache on/off, cache index pre-created (cosine/euclidean, english analyzer, 0-3 pre-populated entries with sources and ages) or created by the gateway on first save; " +
+	"firewall threshold from {0.05..0.9} incl. the default 0.25; cache on/off, cache index pre-created (cosine/euclidean, english analyzer, 0-3 pre-populated entries with sources and ages; 0-5 entries citing 0-6 documents each when the document ids share words) or created by the gateway on first save; " +
+	"document / chunk ids from one of three families: single words (doc_1, kb7), path-like (docs/b.md_0, guide-v1) or composed per case as <stem><separator><number> from a small vocabulary so that ids share words, differ by an English ending or by letter case only " +
+	"(notes-1 / notes-7 / faq-1 / note-1 / FAQ-1; never white space); 60 % of the invalidations (when possible) name a document cited by a stored answer while another stored answer cites only look-alikes of it (preferring a look-alike with the shorter sources list); " +
 	"cache threshold from {0.02..0.9} incl. the default 0.1; TTL none/60 s/1 h, thorough tier also 1 s and 2 s with real sleeps; optional RAG knowledge base so that stored answers cite chunks) and 2-8 steps " +
 	"(chat request | add a forbidden prompt | POST /cache/invalidate | sleep past the TTL) plus up to 2 RESTARTS (gateway and engine closed, engine reopened on the same data directory, new gateway with the same configuration, " +
 	"same stub embedder and upstream; no snapshot or log rewrite in between) placed right after an invalidation (50 % when it removes something), a late forbidden prompt (35 %), a cache save (18 %), a cache hit, or anywhere, and followed by requests aimed " +
